@@ -18,7 +18,14 @@ def _with_state_lock(func):
 
     async def wrapper(obj: 'TransferState', *args, **kwargs):
         async with obj.transfer._state_lock:
-            result = await func(*args, **kwargs)
+            # The state could have changed while waiting for the lock, the
+            # transition should be performed on the current state and not on
+            # the state object on which the method was originally called
+            current = obj.transfer.state
+            if current is not obj:
+                result = await getattr(type(current), func.__name__)(current, *args, **kwargs)
+            else:
+                result = await func(*args, **kwargs)
         return result
 
     return wrapper
